@@ -409,46 +409,52 @@ def _from_peek(b, l, seen=None):
 
 def check_scanner(facts):
     r = RuleResult("SCANNER", _text("SCANNER"))
-    fn = "api::Regex::expand_replacement"
-    if not facts.has_body(fn):
-        r.error("anchor %s not found" % fn)
+    root = "api::Regex::expand_replacement"
+    if not facts.has_body(root):
+        r.error("anchor %s not found" % root)
         return r
-    b = facts.body(fn)
-    dom = b.dom()
+    # the scanner and every helper it hands the Peekable<Chars> to
+    fns = [n for n in facts.body_names() if n.startswith("api::") and "{closure" not in n
+           and any("Peekable<std::str::Chars" in (l.get("ty") or "") for l in facts.body(n).locals)]
+    if root not in fns:
+        fns.append(root)
     nd = 0
-    npeek = len([1 for bb, t in b.iter_calls() if (t.get("callee") or "").endswith("::peek")])
-    for bb, t in b.iter_calls():
-        cal = t.get("callee") or ""
-        rc = t.get("resolved") or t.get("fn_resolved") or ""
-        if not cal.endswith("Iterator::next"):
-            continue
-        if _reads_of(b, t["dest"]["l"]) > 0:
-            continue  # the character is used (pushed / inspected)
-        nd += 1
-        key = "%s discarding next() #%d" % (fn, nd)
-        ok = None
-        for s in dom[bb]:
-            ts = b.blocks[s]["t"]
-            if ts["k"] != "switch" or ts["discr"].get("k") not in ("copy", "move"):
+    npeek = 0
+    for fn in sorted(fns):
+        b = facts.body(fn)
+        dom = b.dom()
+        npeek += len([1 for bb, t in b.iter_calls() if (t.get("callee") or "").endswith("::peek")])
+        for bb, t in b.iter_calls():
+            cal = t.get("callee") or ""
+            if not cal.endswith("Iterator::next"):
                 continue
-            if not _from_peek(b, ts["discr"]["pl"]["l"]):
-                continue
-            if ts.get("dty") == "bool":
-                edges = [ts["otherwise"]]
-            elif ts.get("dty") in ("isize", "usize") or "Option" in str(ts.get("dty")):
-                continue  # Some/None test of the peek itself recognises nothing
+            if _reads_of(b, t["dest"]["l"]) > 0:
+                continue  # the character is used (pushed / inspected)
+            nd += 1
+            key = "%s discarding next() #%d" % (fn, nd)
+            ok = None
+            for s in dom[bb]:
+                ts = b.blocks[s]["t"]
+                if ts["k"] != "switch" or ts["discr"].get("k") not in ("copy", "move"):
+                    continue
+                if not _from_peek(b, ts["discr"]["pl"]["l"]):
+                    continue
+                if ts.get("dty") == "bool":
+                    edges = [ts["otherwise"]]
+                elif ts.get("dty") in ("isize", "usize") or "Option" in str(ts.get("dty")):
+                    continue  # Some/None test of the peek itself recognises nothing
+                else:
+                    edges = [tg for v, tg in ts["targets"]]
+                for e in edges:
+                    if e == bb or e in dom[bb]:
+                        ok = ts.get("line")
+            if ok is not None:
+                r.ok(key, "recognised at line %s" % ok)
+                r.sample({"function": fn, "discard_line": t.get("line"), "recognised_by_test_at_line": ok})
             else:
-                edges = [tg for v, tg in ts["targets"]]
-            for e in edges:
-                if e == bb or e in dom[bb]:
-                    ok = ts.get("line")
-        if ok is not None:
-            r.ok(key, "recognised at line %s" % ok)
-            r.sample({"function": fn, "discard_line": t.get("line"), "recognised_by_test_at_line": ok})
-        else:
-            r.fail(key, "the template character consumed at line %s is thrown away without having been recognised by a test on the peeked "
-                        "character (it sits on a default/else edge): an ordinary character after `$` is swallowed" % t.get("line"),
-                   facts.loc(fn, t.get("line")))
+                r.fail(key, "the template character consumed at line %s is thrown away without having been recognised by a test on the peeked "
+                            "character (it sits on a default/else edge): an ordinary character after `$` is swallowed" % t.get("line"),
+                       facts.loc(fn, t.get("line")))
     r.floor("discarding_next_calls", nd, 3)
     r.floor("peek_calls", npeek, 2)
     return r
